@@ -43,8 +43,22 @@ struct SynthPlan {
 	size_t maxBytes = 96 * 1024;		// abort synthesis beyond this payload size
 	uint32_t bigCount = 40;				// upper end of the "sometimes larger" counts
 	bool wantTrace = false;
-	const std::vector<uint8_t>* forcedIntegrals = nullptr; // unused
+	bool wantSites = false;
+	// One-factor sweep: the forceRead-th integer-like read (integral, enum, raw 1/2/4 bytes; counted
+	// from 0) returns forceValue instead of the tape's choice (the tape is consumed as usual).
+	int forceRead = -1;
+	uint64_t forceValue = 0;
 };
+
+// Force request for the FIRST subject of the next synthesised file(s) on this thread
+struct Force {
+	int read = -1;
+	uint64_t value = 0;
+};
+inline Force& force() {
+	static thread_local Force f;
+	return f;
+}
 
 struct SynthResult {
 	bool ok = false;
@@ -59,6 +73,10 @@ struct SynthResult {
 	size_t strSet = 0;
 	size_t preconditionsApplied = 0;
 	std::vector<TraceEntry> trace;
+	uint64_t shape = 0;	  // hash of the (kind, width) sequence of all reads
+	std::vector<uint64_t> sites; // distinct read sites (return-address chains) visited: which branches the reader took
+	size_t intReads = 0;  // integer-like reads issued
+	bool forced = false;  // the force request was applied
 };
 
 class Supplier {
@@ -73,6 +91,26 @@ public:
 	std::string type;
 	std::string rec;
 	size_t reads = 0, refsRead = 0, refsSet = 0, strRead = 0, strSet = 0, preconds = 0;
+	size_t intReads = 0;
+	uint64_t shape = 1469598103934665603ull;
+	bool forcedApplied = false;
+	std::vector<uint64_t> sites; // distinct, in order of first visit (small: linear search)
+	bool wantSites = false;
+
+	void noteSite(uint64_t k) {
+		for (auto s : sites)
+			if (s == k)
+				return;
+		sites.push_back(k);
+	}
+
+	uint64_t forcedOr(uint64_t v) {
+		if (static_cast<int>(intReads++) == plan.forceRead) {
+			forcedApplied = true;
+			return plan.forceValue;
+		}
+		return v;
+	}
 	std::vector<TraceEntry> trace;
 	std::map<void*, int32_t> allocOrd;
 	bool bsGeomZeroSeen = false;
@@ -114,6 +152,10 @@ public:
 	void doRead(char* dst, std::streamsize count, nifly::verif::Hint hint, size_t es) {
 		using nifly::verif::Hint;
 		reads++;
+		{
+			uint64_t key = (static_cast<uint64_t>(hint) << 40) ^ static_cast<uint64_t>(count);
+			shape = hash_mix(shape, key);
+		}
 		if (plan.wantTrace) {
 			TraceEntry te{static_cast<uint8_t>(hint), static_cast<uint32_t>(count)};
 #ifdef VF_HAVE_ASAN_LOCATE
@@ -148,6 +190,7 @@ public:
 					v = tape.u16();
 				else
 					v %= 8;
+				v = forcedOr(v);
 				uint64_t le = v;
 				char buf[8] = {};
 				memcpy(buf, &le, n < 8 ? n : 8);
@@ -160,7 +203,7 @@ public:
 				return;
 			}
 			case Hint::Integral: {
-				uint64_t v = countLike(n);
+				uint64_t v = forcedOr(countLike(n));
 				if (type == "BSGeometry" && n == 1) {
 					// format precondition: mesh slots are filled from the front
 					if (bsGeomZeroSeen && v != 0) {
@@ -243,7 +286,7 @@ public:
 			case Hint::Raw:
 			default: {
 				if (n == 1 || n == 2 || n == 4) {
-					uint64_t v = countLike(n);
+					uint64_t v = forcedOr(countLike(n));
 					char buf[8] = {};
 					memcpy(buf, &v, 8);
 					emit(dst, buf, n);
@@ -260,7 +303,25 @@ public:
 	}
 
 	static void readCb(void* ctx, char* dst, std::streamsize count, nifly::verif::Hint hint, std::size_t es) {
-		static_cast<Supplier*>(ctx)->doRead(dst, count, hint, es);
+		auto self = static_cast<Supplier*>(ctx);
+		if (self->wantSites) {
+			// identity of the reading code: the chain of return addresses above the hook (frame pointers are
+			// kept); only used to pick tapes, never by an oracle
+			uint64_t a = reinterpret_cast<uint64_t>(__builtin_return_address(0));
+			uint64_t b = reinterpret_cast<uint64_t>(__builtin_return_address(1));
+			uint64_t c = reinterpret_cast<uint64_t>(__builtin_return_address(2));
+			uint64_t d = reinterpret_cast<uint64_t>(__builtin_return_address(3));
+			uint64_t e = reinterpret_cast<uint64_t>(__builtin_return_address(4));
+			uint64_t f = reinterpret_cast<uint64_t>(__builtin_return_address(5));
+			uint64_t k = a;
+			k = k * 1099511628211ull ^ b;
+			k = k * 1099511628211ull ^ c;
+			k = k * 1099511628211ull ^ d;
+			k = k * 1099511628211ull ^ e;
+			k = k * 1099511628211ull ^ f;
+			self->noteSite(k ^ (static_cast<uint64_t>(hint) << 56));
+		}
+		self->doRead(dst, count, hint, es);
 	}
 	static void getlineCb(void* ctx, char* dst, std::streamsize maxCount) {
 		auto self = static_cast<Supplier*>(ctx);
@@ -305,6 +366,7 @@ inline SynthResult synthBlock(const std::string& type, const VersionCfg& v, Tape
 	nifly::NiIStream stream(&empty, &hdr);
 
 	Supplier sup(tape, plan, type);
+	sup.wantSites = plan.wantSites;
 	nifly::verif::Hooks hooks;
 	hooks.read = &Supplier::readCb;
 	hooks.getline = &Supplier::getlineCb;
@@ -336,6 +398,10 @@ inline SynthResult synthBlock(const std::string& type, const VersionCfg& v, Tape
 	res.strSet = sup.strSet;
 	res.preconditionsApplied = sup.preconds;
 	res.trace = std::move(sup.trace);
+	res.shape = sup.shape;
+	res.sites = std::move(sup.sites);
+	res.intReads = sup.intReads;
+	res.forced = sup.forcedApplied;
 	return res;
 }
 
@@ -417,6 +483,10 @@ inline SynthFile synthMultiFile(const std::vector<std::string>& types, size_t vi
 		for (uint32_t j = 0; j < nTargets; j++)
 			plan.refTargets.push_back(k + 1 + j);
 		plan.wantTrace = wantTrace;
+		if (i == 0) {
+			plan.forceRead = force().read;
+			plan.forceValue = force().value;
+		}
 		SynthResult r = synthBlock(types[i], v, tape, plan);
 		if (!r.ok) {
 			out.aborted = r.aborted;
